@@ -89,7 +89,8 @@ def parseField (s : String) : Option ProjField :=
     match Bytes.ofHex k with
     | none => none
     | some k =>
-      if l == "-" then some { key := k, fixed := some [] }
+      if l == "!" then some { key := k, fixed := none, badOrder := true }
+      else if l == "-" then some { key := k, fixed := some [] }
       else ((l.splitOn "/").mapM Bytes.ofHex).map fun l => { key := k, fixed := some l }
   | _ => none
 
@@ -177,19 +178,18 @@ def handle (l : Line) : IO Unit := do
   | .error (.emptyKey off) => IO.println s!"obs {id} new=!emptykey@{off} tnew={tnew}"
   | .ok user =>
     let projs := parseProjs (l.getD "projs" "-")
-    -- projections: errors first (the harness stops at the first failing Parse)
-    let perr := projs.findSome? fun fs => match checkFields fs with
-      | .error e => some e
-      | .ok () => none
-    if kind == "p" then
-      if let some pe := perr then
-        let s := match pe with
-          | .unknownOrder => "unknownorder" | .fixedConfig => "fixedconfig" | .unitKey => "unit" | .emptyKey => "emptykey"
-        IO.println s!"obs {id} new=ok tnew={tnew} perr={s}"
-        return
-    let excl := fullnameKeysOf projs
-    let f : FilterFn := parseAll excl projs user
-    let pv := (projs.flatten.filter (·.key != Proc.Extract.dotConfig)).map fun fld => projValue excl fld.key res
+    -- a history of Parse calls: rejected ones are reported and leave no trace, the filter is
+    -- the literal model of the calls (parseHistory); the keys excluded from .fullname are those
+    -- of the accepted expressions (a rejected Parse restores the parser, commit 91c9aa7)
+    let perrS := if projs.isEmpty then "none" else ",".intercalate (projs.map fun fs =>
+      match checkFields fs with
+      | .ok () => "none"
+      | .error .unknownOrder => "unknownorder" | .error .fixedConfig => "fixedconfig"
+      | .error .unitKey => "unit" | .error .emptyKey => "emptykey")
+    let accepted := acceptedOf projs
+    let excl := fullnameKeysOf accepted
+    let f : FilterFn := parseHistory excl projs user
+    let pv := (accepted.flatten.filter (·.key != Proc.Extract.dotConfig)).map fun fld => projValue excl fld.key res
     let mt := filterMatch f res
     let n := mt.n
     let ap := mt.apply res.values
@@ -199,7 +199,7 @@ def handle (l : Line) : IO Unit := do
     let oob := String.ofList ([(-1 : Int), n, n + 1, n + 31, n + 32].map fun i => if mt.testInt i then '1' else '0')
     let tfields := match textFn with
       | .ok userT =>
-        let fT : FilterFn := parseAll excl projs userT
+        let fT : FilterFn := parseHistory excl projs userT
         let mT := filterMatch fT res
         let aT := filterApply fT res
         s!"ttest={bits n mT.test} tall={b01 mT.all} tany={b01 mT.any} tapply={showIdx aT.1.values} tflag={b01 aT.2}"
@@ -213,14 +213,15 @@ def handle (l : Line) : IO Unit := do
         let m1 := r1.1.read r2.2
         let m2 := r2.1.read r2.2
         s!"htest={bits n m1.test}/{bits n m2.test}"
-    IO.println s!"obs {id} new=ok tnew={tnew} perr=none pv={showHexList pv} n={n} test={bits n mt.test} oob={oob} all={b01 mt.all} any={b01 mt.any} apply={showIdx ap.1} flag={b01 ap.2} fapply={showIdx ap2.1.values} fflag={b01 ap2.2} omiss={omiss} lmiss={lmiss} glue=ok {tfields} {hfield}"
+    IO.println s!"obs {id} new=ok tnew={tnew} perr={perrS} pv={showHexList pv} n={n} test={bits n mt.test} oob={oob} all={b01 mt.all} any={b01 mt.any} apply={showIdx ap.1} flag={b01 ap.2} fapply={showIdx ap2.1.values} fflag={b01 ap2.2} omiss={omiss} lmiss={lmiss} glue=ok {tfields} {hfield}"
     -- S layer: the specification
     -- the meaning of the expression TEXT: the tree of the parser model when it accepts the text
     -- (so that a parser that builds another tree is judged wrong), else the tree that was sent
     let denTree : Nat → Bool := match Proc.FilterText.filterOfText cx text with
       | .ok tT => fun i => Spec.FilterSem.denote reST res i tT
       | .error _ => fun i => Spec.FilterSem.denote reS res i e
-    let fixedOK := projs.flatten.all fun fld => Spec.FilterSem.inFixed excl fld res
+    -- S: only the fixed lists of ACCEPTED expressions restrict the filter
+    let fixedOK := accepted.flatten.all fun fld => Spec.FilterSem.inFixed excl fld res
     let den : Nat → Bool := fun i => denTree i && fixedOK
     let keptS := Spec.FilterSem.keepIdx den res.values
     let flagS := if n == 0 then "n0" else b01 (!keptS.isEmpty)
